@@ -18,7 +18,8 @@ import (
 func TestMain(m *testing.M) { vk.Main(m, "C04") }
 
 type Case struct {
-	Op    string   `json:"op"` // "allpaths" | "decode"
+	Op    string   `json:"op"`            // "allpaths" | "decode" | "maxdecode"
+	Max   int      `json:"max,omitempty"` // maxdecode: bm is the maximum bitmap (exactly 2^25 words = 2^31 bits), description Max (gen.UseMax)
 	Mask  int32    `json:"mask"`
 	From  vk.U64   `json:"from,omitempty"`
 	To    vk.U64   `json:"to,omitempty"`
@@ -31,6 +32,7 @@ var checker = &vk.Checker[Case]{
 	Rule: "AllPaths: level masks of height 0..30 x (from,to) built around a centre with a bounded span in the upper half and lower halves from {0, a valid mask, ffffffff, random}, plus exact hits p, p+-1, from==to, from>to, to=0, from beyond the tree, full ranges for h<=12; " +
 		"oracle = per stored level enumerate candidate prefixes, encode, filter from<=p<to, sort; exact slice equality. Decode: masks of height <= 12 (thorough <= 16) x bitmaps of any content, exact length, truncated, empty, extended with garbage, garbage at bits >= bitmapSize; oracle = pre-order walk with its own index; plus re-encoding through the library's PathToIndex (round trip). " +
 		"Grid: all masks h<=5 (thorough <=7) x all (from,to) from {every path, every path+-1}; Decode on all masks h<=3 x all subsets. Non-trivial (AllPaths): non-empty result and a clip actually taken (a stored node in from's group lies below from, or one in to's group is >= to); (Decode): proper non-empty subset, h>=2. " +
+		"Decode is also given the head of the MAXIMUM bitmap (a 2^25-word array, the largest one int32 positions address) for masks of height <= 8 on three descriptions. " +
 		"Grid cases distinct by construction; rapid cases hashed only outside the grid domain.",
 	Check:    check,
 	Classify: classify,
@@ -188,7 +190,40 @@ func checkDecode(mask int32, bm []uint64) *vk.Failure {
 	return nil
 }
 
+// maxHead is a private copy of the first words of the maximum bitmap's description (what a mask < 2^9 can address).
+func maxHead(v int) []uint64 {
+	gen.UseMax(v)
+	h := make([]uint64, 9)
+	for k := range h {
+		h[k] = gen.MaxWord(k)
+	}
+	return h
+}
+
+// checkMaxDecode: a node bitmap that is the head of a huge shared bitmap (2^25 words, the largest one int32 positions address).
+func checkMaxDecode(v int, mask int32) *vk.Failure {
+	if v < 0 || v >= gen.MaxVariants || mask < 1 || mask >= 1<<9 {
+		return nil
+	}
+	want, _ := wantDecode(mask, maxHead(v))
+	bm := gen.UseMax(v)
+	var got []uint64
+	if f := vk.Try(fmt.Sprintf("Decode(%#x, 2^25 words (description %d))", mask, v), func() { got = bmtree.Decode(mask, bm) }); f != nil {
+		return f
+	}
+	if !eq(got, want) {
+		return vk.Failf("decode", "Decode(mask=%#x, bm = 2^25-word bitmap (description %d) starting %#x): %s; got %s want %s", mask, v, maxHead(v)[:3], firstDiff(got, want), show(got), show(want))
+	}
+	if k, bad := gen.MaxBitmapDamage(); bad {
+		return vk.Failf("decode-mutates", "Decode modified word %d of its 2^25-word bitmap argument", k)
+	}
+	return nil
+}
+
 func check(c Case) *vk.Failure {
+	if c.Op == "maxdecode" {
+		return checkMaxDecode(c.Max, c.Mask)
+	}
 	if c.Op == "decode" {
 		return checkDecode(c.Mask, c.Bm)
 	}
@@ -205,6 +240,13 @@ func classify(c Case) (bool, []string) {
 		labels = append(labels, "h:8-16")
 	default:
 		labels = append(labels, "h:17-30")
+	}
+	if c.Op == "maxdecode" {
+		want, stored := wantDecode(c.Mask, maxHead(c.Max%gen.MaxVariants))
+		if len(want) > 0 && len(want) < stored {
+			labels = append(labels, "subset:proper")
+		}
+		return tr.H >= 2 && len(want) > 0 && len(want) < stored, labels
 	}
 	if c.Op == "decode" {
 		want, stored := wantDecode(c.Mask, c.Bm)
@@ -472,6 +514,15 @@ func TestGrid(t *testing.T) {
 				}
 				if f := checkDecode(mask, bm); f != nil {
 					fail(Case{Op: "decode", Mask: mask, Bm: bm, Class: "grid"}, f)
+				}
+			}
+		}
+	}
+	if shard == 0 { // the bitmap argument is the head of a 2^25-word array: masks of every height <= 8 on each description
+		for v := 0; v < gen.MaxVariants; v++ {
+			for mask := int32(1); mask < 1<<9; mask++ {
+				if mask < 64 || vk.Mix(uint64(mask))%4 == 0 || mask&(mask+1) == 0 {
+					checker.Run(t, Case{Op: "maxdecode", Max: v, Mask: mask, Class: "grid-maximum"})
 				}
 			}
 		}
